@@ -1852,6 +1852,51 @@ REJECT2 = [
 ]
 
 
+# the boundary of heap mode (round 3b): a class with an object store; each method must be refused
+_HBOX = {'name': 'H', 'lean_name': 'H', 'tparams': ['κ', 'ν'], 'deceq': ['κ'], 'inhabited': ['ν'],
+         'heap': {'field': 'heap', 'key': 'κ', 'val': 'ν'}, 'virtual': ['heap', 'd'], 'dict_base': 'd',
+         'sentinels': ['_MISSING'], 'ignore_with': ['_lock'],
+         'state': {'heap': 'Heap', 'd': 'Dict κ ν', 'n': 'Int', '_tab': 'Dict κ Val', '_anchor': 'Val'}, 'methods': []}
+_HP = {'params': {'k': 'κ', 'v': 'ν'}, 'result': 'None', 'raises': True, 'cls': _HBOX, 'method': True}
+REJECT3 = [
+    ('an allocation inside an expression', 'self._anchor[0] = [k, v]'),
+    ('a nested list display', 'x = [k, [v]]\n        self._anchor = x'),
+    ('two store writes in one statement', 'a = self._anchor\n        a[0], a[1] = a, a'),
+    ('storing under a dynamically typed key', 'self._tab[self._anchor[2]] = self._anchor'),
+    ('a dynamically typed value where a value of the item type is expected',
+     'dict.__setitem__(self, k, self._anchor[3])'),
+    ('a lock the spec does not declare transparent', 'with self._other:\n            self.n = 1'),
+    ('a slice of a cell', 'x = self._anchor[1:]\n        self._anchor = x'),
+    ('truth value of a dynamically typed value', 'if self._anchor[2]:\n            self.n = 1'),
+    ('bare raise outside a handler', 'raise'),
+    ('a list display stored in the dict', 'self._tab[k] = [k, v]'),
+    ('arithmetic on a dynamically typed value', 'self.n = self._anchor[0] + 1'),
+    ('a starred display', 'x = [*self._tab]\n        self._anchor = x'),
+    ('chained assignment whose value is evaluated twice', 'self._anchor[0] = self._anchor[1] = self._tab.pop(k)'),
+]
+
+
+def reject_tests3(verbose=True):
+    import ast
+    bad = []
+    for name, body in REJECT3:
+        src = 'class H(dict):\n    def m(self, k, v):\n        %s\n' % body
+        spec = {'module': 'x', 'qualname': 'H.m', 'lean_name': 'H.m', 'kind': 'function', 'tie_theorem': '-', 'py': 'm'}
+        spec.update(_HP)
+        tree = ast.parse(src)
+        try:
+            fdef = py2lean._find_function(tree, 'H.m')
+            text = py2lean.FnTranslator(fdef, spec, {}, tree).emit()
+            bad.append((name, text))
+        except (py2lean.Unsupported, py2lean._Unknown):
+            pass
+    if verbose:
+        print('subset boundary (heap mode): %d/%d snippets refused' % (len(REJECT3) - len(bad), len(REJECT3)))
+        for name, text in bad:
+            print('ACCEPTED (should be refused): %s\n%s' % (name, text))
+    return len(bad)
+
+
 def reject_tests2(verbose=True):
     import ast
     bad = []
@@ -1901,7 +1946,7 @@ def main(argv):
         seed = int(argv[argv.index('--seed') + 1])
     pids = [a for a in argv[1:] if a.upper().startswith('C') and a[1:].isdigit()] or sorted(srctie_specs.SPECS)
     try:
-        n = reject_tests() + reject_tests2()
+        n = reject_tests() + reject_tests2() + reject_tests3()
         n += run([p.upper() for p in pids], quick, seed, snippets='--no-snippets' not in argv)[0]
     except common.InfraError as e:
         print('infrastructure error: %s' % e)
